@@ -58,6 +58,8 @@ ASSUMPTIONS = ["the kind is built by injecting the feature set (k._features); Pr
 # =====================================================================================================================
 
 
+from vf.c09a import h_a_program  # noqa: E402,F401  (part A harness, resolved by name from the shard table)
+
 # ---- part B ---------------------------------------------------------------------------------------------------------
 _SENS = {}
 MAX_BG = 5
@@ -196,7 +198,9 @@ def shards(tier, seed):
     from unified_planning.engines.mixins.compiler import CompilationKind
 
     out = []
-    # ---- PART A shards go here ------------------------------------------------------------------------------------
+    # ---- PART A: per-program check (vf/c09a.py) -----------------------------------------------------------------
+    from vf import c09a
+    out.extend(c09a.shards(tier))
     # ---- part B -------------------------------------------------------------------------------------------------------
     with_compiler = ["GROUNDING", "CONDITIONAL_EFFECTS_REMOVING", "INTERPRETED_FUNCTIONS_REMOVING", "DISJUNCTIVE_CONDITIONS_REMOVING",
                      "NEGATIVE_CONDITIONS_REMOVING", "QUANTIFIERS_REMOVING", "USERTYPE_FLUENTS_REMOVING", "BOUNDED_TYPES_REMOVING",
